@@ -20,7 +20,7 @@ fn churn(n: usize) -> String {
     )
 }
 
-pub const TEMPLATE_COUNT: usize = 16;
+pub const TEMPLATE_COUNT: usize = 20;
 
 pub fn template(rng: &mut Rng, which: usize) -> String {
     let n = 5 + rng.below(60) as usize;
@@ -134,6 +134,36 @@ pub fn template(rng: &mut Rng, which: usize) -> String {
             "(define (va . xs) (apply + xs)) (va 1 2 3 {n}) (apply va (list 1 2 3))
              (define (f a b . rest) (list a b rest)) (f 1 2) (f 1 2 3 4 {m}) (apply f 1 2 '(3 4))
              (apply map (list (lambda (x y) (cons x y)) '(1 2 3) '(a b c)))"
+        ),
+        // sole owners: objects reachable ONLY through one kind of edge of a saved continuation.
+        // code object reachable only through the continuation's saved instruction pointer: capture inside f,
+        // let f return, rebind f, allocate, re-enter from a later form
+        16 => format!(
+            "(define k1 #f) (define (f1 x) (+ {m} (call/cc (lambda (c) (set! k1 c) x)))) (f1 1) (define (f1 x) x)
+             {} (define n1 0) (if (< n1 2) (begin (set! n1 (+ n1 1)) (k1 (* 10 n1))) 'done) n1 (f1 7)",
+            churn(10 + n)
+        ),
+        // environment reachable only through the continuation's saved environment pointer
+        17 => format!(
+            "(define k2 #f) (define (mk y) (lambda () (+ y (call/cc (lambda (c) (set! k2 c) 1))))) ((mk {n}))
+             {} (define n2 0) (if (< n2 2) (begin (set! n2 (+ n2 1)) (k2 (* 100 n2))) 'done) n2",
+            churn(10 + m)
+        ),
+        // operands already evaluated, reachable only through the continuation's saved stack
+        18 => format!(
+            "(define k3 #f) (list (list 1 {n} (vector {m})) (string-append \"a\" \"b\") (call/cc (lambda (c) (set! k3 c) 0)) 'end)
+             {} (define n3 0) (if (< n3 2) (begin (set! n3 (+ n3 1)) (k3 (list n3))) 'done) n3",
+            churn(10 + n)
+        ),
+        // a continuation captured deep in a non-tail recursion whose frames hold the only references to
+        // closures and their environments
+        19 => format!(
+            "(define k4 #f)
+             (define (deep n acc) (if (= n 0) (call/cc (lambda (c) (set! k4 c) acc))
+                                      ((lambda (g) (+ (g) (deep (- n 1) (+ acc n)))) (lambda () n))))
+             (deep {m} 0) (define (deep n acc) 'gone) {} (define n4 0)
+             (if (< n4 1) (begin (set! n4 (+ n4 1)) (k4 1000)) 'done) n4",
+            churn(10 + n)
         ),
         // mixed, with continuation captured inside map and re-entered once
         _ => format!(
